@@ -86,6 +86,9 @@ class Editor:
         self.lost = []      # assignments that did not take effect
         self.must = {}      # (id(obj), attr) -> unique token that has to show up in db.dbml from now on
         self.keep = []      # keeps edited objects alive so ids stay unique
+        from pydbml.classes import EnumItem as _EI
+        self.prebuilt = [_EI(f'pbE{k_}q') for k_ in range(4)]      # built before any rendering, added later
+        self.text_copies = set()
         self.shared = set() # ids of enum items that belong to two enums (see add_derived_enum)
         self.once = []      # tokens written into ONE free-text slot in place: they may show up in db.dbml at most once
 
@@ -113,6 +116,8 @@ class Editor:
         """a second index that differs from an existing one only in its comment"""
         from pydbml.classes import Index, Expression
         src = self.rng.choice(t.indexes)
+        if src.note is not None and src.note.text in self.once:
+            self.once.remove(src.note.text)
         for x in src.subjects:      # the twin repeats the source's texts on purpose
             if isinstance(x, Expression) and x.text in self.once:
                 self.once.remove(x.text)
@@ -147,8 +152,46 @@ class Editor:
         if id(owner) not in self.shared:
             self.once.append(n.text)
 
-    def repoint(self, r):
-        """one endpoint of a reference is assigned anew: a column of another table"""
+    def type_like_enum(self, c):
+        """the column type becomes a TEXT spelled like the name of an enum of the database (it stays a text)"""
+        if not self.db.enums:
+            raise LookupError('no enum')
+        name = self.rng.choice(self.db.enums).name
+        self.text_copies.add(name)          # from now on this token has a second, independent owner
+        self.set(c, 'type', name)
+
+    def note_inplace(self, owner):
+        """the text of the owner's note is written in place, whether or not the owner had a note text before"""
+        n = owner.note
+        newt = self.tok('ip note ')
+        n.text = newt
+        self.must.pop((id(owner), 'note'), None)
+        if owner.note.text != newt:
+            self.lost.append(f'{type(owner).__name__}.note.text = {newt!r} reads back as {owner.note.text!r}')
+        if type(owner).__name__ != 'Index':       # (an index may be removed later, and its texts with it)
+            self.expect_token(owner, 'note', newt)
+        if id(owner) not in self.shared:
+            self.once.append(newt)
+
+    def add_prebuilt_item(self, e):
+        """an EnumItem object that existed before the last rendering is added (no attribute of any model object is assigned)"""
+        if not self.prebuilt:
+            raise LookupError('no prebuilt item left')
+        it = self.prebuilt.pop()
+        e.add_item(it)
+        self.once.append(it.name)
+        self.expect_token(it, 'name', it.name)
+
+    def subjects_append(self, t, ix):
+        """the subject list of an index is extended in place"""
+        cands = [c for c in t.columns if c not in ix.subjects]
+        if not cands or ix.pk:
+            raise LookupError('nothing to append')
+        ix.subjects.append(self.rng.choice(cands))
+
+    def repoint(self, r, in_list=False):
+        """one endpoint of a reference is assigned anew: a column of another table (in_list: the item of the existing
+        column list is replaced, no attribute is assigned)"""
         side = self.rng.choice(['col1', 'col2'])
         cur = getattr(r, side)
         if len(cur) != 1:
@@ -157,7 +200,10 @@ class Editor:
         cands = [c for t in self.db.tables if t is not cur[0].table and t is not other for c in t.columns]
         if not cands:
             raise LookupError('no third table')
-        self.set(r, side, [self.rng.choice(cands)])
+        if in_list:
+            cur[0] = self.rng.choice(cands)
+        else:
+            self.set(r, side, [self.rng.choice(cands)])
 
     def move_column(self, r):
         """the column at one end of a reference moves to another table (delete_column + add_column)"""
@@ -258,7 +304,7 @@ class Editor:
             def f():
                 old = getattr(obj, attr)
                 # schemas are shared between tables / enums, every other name token belongs to one object
-                if isinstance(old, str) and old.endswith('q') and attr != 'schema':
+                if isinstance(old, str) and old.endswith('q') and attr != 'schema' and old not in self.text_copies:
                     self.stale.append(old)
                 newv = self.tok(attr[:2])
                 setattr(obj, attr, newv)
@@ -291,11 +337,14 @@ class Editor:
                 ix = rng.choice(t.indexes)
                 out += [('index-name', lambda: self.set(ix, 'name', rng.choice([None, self.tok('ixn')]))),
                         ('index-flags', lambda: (self.set(ix, 'unique', not ix.unique), self.set(ix, 'type', rng.choice([None, 'gin', 'brin'])))),
-                        ('index-note', lambda: self.set(ix, 'note', Note(self.tok('inote '))))]
+                        ('index-note', lambda: self.set(ix, 'note', Note(self.tok('inote ')))),
+                        ('index-note-inplace', lambda: self.note_inplace(ix)),
+                        ('index-subjects-append', lambda: self.subjects_append(t, ix))]
         if cols:
             c = rng.choice(cols)
             out += [('rename-column', rename(c, 'name')),
                     ('column-type-str', lambda: self.set(c, 'type', rng.choice(['bigint', 'varchar(10)', 'text[]', self.tok('ty')]))),
+                    ('column-type-text-like-enum-name', lambda: self.type_like_enum(c)),
                     ('column-flag', lambda: self.set(c, rng.choice(['pk', 'unique', 'not_null', 'autoinc']), rng.random() < 0.5)),
                     ('column-default', lambda: self.set(c, 'default', rng.choice(
                         [None, 0, 1, 2.5, True, False, '', self.tok('dv'), Expression('now()'), 'NULL']))),
@@ -313,6 +362,8 @@ class Editor:
             out += [('rename-enum', rename(e, 'name')), ('rename-enum-schema', rename(e, 'schema')),
                     ('add-enum-item', lambda: self.add_enum_item(e)),
                     ('add-derived-enum', lambda: self.add_derived_enum(e)),
+                    ('add-prebuilt-enum-item', lambda: self.add_prebuilt_item(e)),
+                    ('enum-item-note-inplace', lambda: self.note_inplace(rng.choice(e.items))),
                     ('enum-note-writeback', lambda: self.writeback(rng.choice(e.items))),
                     ('rename-enum-item', rename(rng.choice(e.items), 'name')),
                     ('enum-item-note', lambda: self.set(rng.choice(e.items), 'note', Note(self.tok('einote '))))]
@@ -325,6 +376,7 @@ class Editor:
                                              self.set(r_, 'on_delete', rng.choice([None, 'restrict', 'no action'])))),
                     ('ref-comment', lambda: self.set(r_, 'comment', rng.choice([None, self.tok('rc ')]))),
                     ('ref-repoint', lambda: self.repoint(r_)),
+                    ('ref-endpoint-list-item', lambda: self.repoint(r_, in_list=True)),
                     ('move-referenced-column', lambda: self.move_column(r_))]
         if db.table_groups:
             g = rng.choice(db.table_groups)
